@@ -188,12 +188,20 @@ def DOut.emit (o : DOut) (r g : SigMap) (k : Option Sig) : SigMap :=
   | .everything => (SigMap.support inp).map (fun s => (s, if o.copy then inp.get s else o.const))
   | .anything => []
 
-/-- Decider combinator. With `each` in a condition the rows are evaluated once per present input
-signal and the outputs are emitted for every passing signal. -/
+/-- the network selections of the `each` operands of a row -/
+def Cond.eachSels (cd : Cond) : List Sel :=
+  (match cd.first with | .ref .each s => [s] | _ => []) ++ (match cd.second with | .ref .each s => [s] | _ => [])
+
+/-- the signals `each` ranges over in a decider (A7): those present on the networks that the rows' `each`
+operands select, each once -/
+def eachDomain (conds : List Cond) (r g : SigMap) : List Sig :=
+  SigMap.dedup ((conds.flatMap Cond.eachSels).flatMap (fun sel => SigMap.support (selIn sel r g)))
+
+/-- Decider combinator. With `each` in a condition the rows are evaluated once per signal of
+`eachDomain` and the outputs are emitted for every passing signal. -/
 def evalDecider (c : DeciderCfg) (r g : SigMap) : SigMap :=
   if c.conds.any Cond.usesEach then
-    let all := r ++ g
-    ((SigMap.support all).map (fun k =>
+    ((eachDomain c.conds r g).map (fun k =>
       if evalConds c.conds r g (some k) then (c.outs.map (fun o => o.emit r g (some k))).flatten else [])).flatten
   else if evalConds c.conds r g none then (c.outs.map (fun o => o.emit r g none)).flatten
   else []
